@@ -90,6 +90,11 @@ class Live:
         elif t == "setlink":
             e[op["attr"]] = op["target"]
         elif t == "setlist":
+            if kind == "system":
+                # usage patterns that were part of the system and have been taken out of it (trigger of finding D27)
+                gone = [x for x in e[op["attr"]] if x not in op["items"]]
+                if gone:
+                    e["removed"] = sorted(set(e.get("removed", [])) | set(gone))
             e[op["attr"]] = list(op["items"])
         elif t == "settype":
             e["server_type"] = op["value"]
@@ -281,8 +286,16 @@ def gen_hourly_edit(rng, spec):
     return {"op": "sethourly", "name": pn, "values": new}
 
 
+def inside(spec):
+    """the spec without the objects of a usage pattern that is not part of the system (names tagged `_out` by
+    specgen.plant_corners): linking them to objects of the system is outside the domain (finding D27)"""
+    return {k: ({n: o for n, o in v.items() if not str(n).endswith("_out")} if isinstance(v, dict) and k != "system" else v)
+            for k, v in spec.items()}
+
+
 def gen_link_edit(rng, spec):
     """re-point a link or replace / mutate a list of linked objects, keeping the system well formed"""
+    spec = inside(spec)
     choice = rng.choice(["job.server", "pattern.network", "pattern.country", "pattern.usage_journey", "pattern.devices",
                          "step.jobs", "journey.uj_steps", "listop"])
     if choice == "job.server":
